@@ -237,6 +237,31 @@ class Ctx:
         self.results.append(GoalResult(gid, UNDECIDED, 'B', secs, detail='solver answered unknown / timeout', solver=solver, kind=kind))
         return UNDECIDED
 
+    def prove_ring(self, sub, pairs, subs=None, kind='post', fallback=None):
+        """prove a conjunction of equalities lhs == rhs by ring normalisation (sympy); pairs: list of (lhs, rhs) z3 terms"""
+        from . import ring
+        gid = self.oid + ('.' + sub if sub else '')
+        t0 = time.time()
+        try:
+            ok = all(ring.identity(z3real(a), z3real(b), subs) for a, b in pairs)
+        except ring.NotRing as e:
+            ok = None
+        secs = time.time() - t0
+        if ok:
+            self.results.append(GoalResult(gid, PROVED, 'B', secs, solver='ring normalisation (sympy %s)' % __import__('sympy').__version__, kind=kind))
+            return PROVED
+        if fallback is not None:
+            return fallback()
+        if ok is False:
+            # the normal form of lhs - rhs is a non-zero rational function: exhibit a point where it does not vanish
+            from . import ring as _r
+            wit = _r.witness([(z3real(a), z3real(b)) for a, b in pairs], subs)
+            self.results.append(GoalResult(gid, FAILED, 'B', secs, detail='not an identity: lhs - rhs has a non-zero normal form; non-vanishing at %s (uninterpreted loop functions as free values)' % (wit,),
+                                           model={'_free_algebra_point': wit}, solver='ring normalisation (sympy)', kind=kind))
+            return FAILED
+        self.results.append(GoalResult(gid, UNDECIDED, 'B', secs, detail='outside the ring fragment; no SMT fallback given', kind=kind))
+        return UNDECIDED
+
     def record(self, sub, status, backend, seconds, detail='', model=None, solver='', kind='post'):
         gid = self.oid + ('.' + sub if sub else '')
         self.results.append(GoalResult(gid, status, backend, seconds, detail, model, solver, kind))
